@@ -422,6 +422,36 @@ def cursor_rule(ctx, prog, an, rule, decoder_path, R=None):
         base = min(depths.values()) if depths else 0
         deep = [(l, dd[1]) for l in cur_locals for dd in sl.defs.get(l, []) if depths.get(dd[1], 0) > base]
         ok = d <= base and not deep
+        # ... and what is returned as the remainder (it becomes `padding`) is the cursor the failing call was given:
+        # a remainder computed beforehand (`split_at(records * size)`) loses the bytes of the record that failed
+        call_t = b.term(blk)
+        carg = None
+        for a, ty in zip(call_t["args"], call_t.get("argtys") or []):
+            if ty.startswith("&") and ty.replace("&", "").replace("'", "").split(" ")[-1] == "[u8]" and a.get("k") in ("copy", "move"):
+                carg = a["place"]["l"]
+                break
+        if carg is not None and cur_locals:
+            fed = underlying_locals(sl, carg)
+            # compare the values, not just the locals (two parts of one tuple share their local)
+            okv = peel(an.interp._through("ok", an.local(b, 0)))
+            rcs = []
+            for m in (okv[1] if okv[0] == "phi" else [okv]):
+                m = peel(m)
+                if m[0] == "tuple" and m[1]:
+                    rcs.append(peel(m[1][0]))
+            ca = None
+            for a, ty in zip(call_t["args"], call_t.get("argtys") or []):
+                if a.get("k") in ("copy", "move") and a["place"]["l"] == carg:
+                    ca = peel(an.op(b, a))
+
+            def members(x):
+                x = peel(x)
+                return [peel(y) for y in x[1]] if x[0] == "phi" else [x]
+            cam = set(canon(y) for y in members(ca)) if ca is not None else set()
+            same = bool(rcs) and all(canon(rc) == canon(ca) or any(canon(y) in cam or y[0] == "cycle" for y in members(rc)) for rc in rcs)
+            ctx.ob(rule, decoder_path, "returned-remainder-is-the-record-cursor", same,
+                   "the remainder returned by %s %s the cursor handed to the record decoder" % (b.path, "is" if same else "is NOT (locals %s vs %s): bytes of a record that fails to decode are in neither `fields` nor `padding`" % (sorted(cur_locals), sorted(fed))),
+                   site=b.line(blk))
         ctx.ob(rule, decoder_path, "record-cursor", ok,
                ("a failing %s is handled at record level in %s and the returned remainder only advances there" % (c.path.rsplit("::", 1)[-1], b.path)) if ok else
                ("a decode failure is swallowed at repetition depth %d in %s while the returned remainder is assigned at depth(s) %s: a record that fails mid-way loses the bytes already consumed (record loop depth %d)"
@@ -573,6 +603,26 @@ def record_stop_rule(ctx, prog, an, rule, decoder_path, label):
     b = prog.body(F) if F else None
     if not ctx.anchor(rule, decoder_path + " → records parser", b):
         return
+    # every way out of the record loop towards the success value must be of an approved kind
+    from . import loopexit
+    bi = classifier_inlined(prog, b.path) or b
+    dsite = None
+    for blk, t, c in bi.calls():
+        if c is None:
+            continue
+        if (c.local and c.kind == "Item" and blk in set(x for comp in bi.sccs() for x in comp)) or c.nsyn in ("std::iter::Iterator::try_fold",):
+            if any(blk in comp for comp in bi.sccs()):
+                dsite = blk
+                break
+    if dsite is not None:
+        edges = loopexit.finishing_edges(an, bi, dsite)
+        approved = ("zero-progress", "len-vs-expr", "len-vs-len", "result-err", "iter-exhausted", "empty")
+        bad = [(u, v, k, w) for (u, v, k, w) in edges if k not in approved]
+        ctx.ob(rule, b.path, "loop-exits:%s" % label, not bad,
+               ("the record loop can hand the rest over as padding under a condition that is neither `shorter than any record`, `nothing consumed` nor `record failed`: %s"
+                % [(k, bi.line(u)) for (u, v, k, w) in bad]) if bad else "exits of the record loop: %s" % sorted(set(k for (_, _, k, _) in edges)),
+               site=bi.line(dsite))
+        b = bi
     loops = [set(c) for c in b.sccs()]
     guards = []
     for blk in sorted(b.live_blocks()):
